@@ -7,5 +7,5 @@ CONF = {
                     'lengths < 2^32 (len() converted to uint32 in computeChecksum)',
                     'TCP option kind 30 (MPTCP) is outside the modelled decoder (generators keep it out, also under single-bit flips)'],
     'trusted_base': ['model: coq/Model/C08Model.v is a hand transcription of checksum.go:34-58, layers/tcpip.go:26-69 and the checksum emission / region-determining decode / VerifyChecksum parts of ip4.go, tcp.go, udp.go, icmp4.go, icmp6.go, gre.go'],
-    'explanation': 'Props/C08.v proves FoldChecksum = 65535 - oc for all 2^32 accumulators, ComputeChecksum = (c + wordsum) mod 2^32, agreement with RFC 1071 below the accumulator-wrap bound (and refutes it beyond), emitted = reference per layer, VerifyChecksum characterised for every input (Correct = emitter's value over the covered region, Valid = equality with the stored field, UDP/GRE exceptions), verification accepts emitted packets, and single-bit flips are reported; the correspondence run ties the model to the Go code.',
+    'explanation': 'Props/C08.v proves FoldChecksum = 65535 - oc for all 2^32 accumulators, ComputeChecksum = (c + wordsum) mod 2^32, agreement with RFC 1071 below the accumulator-wrap bound (and refutes it beyond), emitted = reference per layer, VerifyChecksum characterised for every input (Correct = the value the emitter writes over the covered region, Valid = equality with the stored field, UDP/GRE exceptions), verification accepts emitted packets, and single-bit flips are reported; the correspondence run ties the model to the Go code.',
 }
